@@ -13,13 +13,15 @@ M32 = 0xFFFFFFFF
 
 
 class Entry:
-    __slots__ = ("name", "payload", "method", "crc", "real_size", "cd_file_size", "cd_compress_size", "ext_attr", "create_system")
+    __slots__ = ("name", "payload", "method", "crc", "real_size", "cd_file_size", "cd_compress_size", "ext_attr", "create_system", "flags")
 
     def __init__(self, name: str, payload: bytes = b"", method: int = 0, crc: int | None = None,
                  real_size: int | None = None, cd_file_size: int | None = None, cd_compress_size: int | None = None,
-                 ext_attr: int | None = None, create_system: int = 0):
+                 ext_attr: int | None = None, create_system: int = 0, flags: int = 0):
         """``ext_attr``: external file attributes of the central record (default: 0x10 = MS-DOS directory bit for names ending
-        in "/", 0 otherwise); ``create_system``: high byte of "version made by" (0 = MS-DOS/FAT, 3 = Unix, ...)."""
+        in "/", 0 otherwise); ``create_system``: high byte of "version made by" (0 = MS-DOS/FAT, 3 = Unix, ...); ``flags``: extra general-purpose
+        flag bits (0x08 = sizes follow in a data descriptor, 0x06 = compression options, 0x2000 = masked local header)."""
+        self.flags = flags                # general-purpose flag bits set in addition to 0x0800 (UTF-8 names), local and central record alike
         self.ext_attr = ext_attr
         self.create_system = create_system
         self.name = name
@@ -43,7 +45,7 @@ def deflated(name: str, data: bytes, **kw) -> Entry:
 
 def _local(e: Entry) -> bytes:
     nm = e.name.encode("utf-8")
-    return struct.pack("<IHHHHHIIIHH", 0x04034B50, 20, 0x0800, e.method, 0, 0x21, e.crc,
+    return struct.pack("<IHHHHHIIIHH", 0x04034B50, 20, 0x0800 | (e.flags & 0xFFFF), e.method, 0, 0x21, e.crc,
                        len(e.payload), e.real_size, len(nm), 0) + nm + e.payload
 
 
@@ -59,7 +61,7 @@ def _central(e: Entry, offset: int) -> bytes:
     if z:
         extra = struct.pack("<HH", 1, 8 * len(z)) + b"".join(struct.pack("<Q", v) for v in z)
     ext_attr = (0x10 if e.name.endswith("/") else 0) if e.ext_attr is None else e.ext_attr & M32
-    return struct.pack("<IHHHHHHIIIHHHHHII", 0x02014B50, (45 if z else 20) | (e.create_system & 0xFF) << 8, 45 if z else 20, 0x0800, e.method, 0, 0x21,
+    return struct.pack("<IHHHHHHIIIHHHHHII", 0x02014B50, (45 if z else 20) | (e.create_system & 0xFF) << 8, 45 if z else 20, 0x0800 | (e.flags & 0xFFFF), e.method, 0, 0x21,
                        e.crc, min(cs, M32), min(fs, M32), len(nm), len(extra), 0, 0, 0, ext_attr, offset) + nm + extra
 
 
